@@ -17,7 +17,7 @@ func init() {
 		Title: "Minority failures are tolerated and every failing node is reported exactly once",
 		Run:   runC07,
 		Meta: core.PropertyMeta{
-			Explanation: "E1: errors never reach the quorum function and every error is recorded once as nodeError{r.nid, r.err} (C01-R3 and C02-T2 re-run under this property). E2: every error-carrying response names the node of the producing channel. E3: a request taken from the queue is either written to the stream successfully or answered with an error that is non-nil by construction under the request's own id; enqueue either queues the request or answers it. E4: the stream reader, on a read error, fails every pending call (a range over the whole router map sending a stream-down error of code Unavailable to every entry, unfiltered) before it loops or returns. E5: WrapMessage stores the handler's status (FromError, or Unknown with the error text) on every path and the reader rebuilds the error from that status and delivers it with the message. E6: every delivery of a response that can carry an error deletes the router in the same critical section, streaming or not, so one node contributes at most one error per call.",
+			Explanation: "E1: errors never reach the quorum function and every error is recorded once as nodeError{r.nid, r.err} (C01-R3 and C02-T2 re-run under this property). E2: every error-carrying response names the node of the producing channel. E3: a request taken from the queue is either written to the stream successfully or answered with an error that is non-nil by construction under the request's own id; enqueue either queues the request or answers it. E4: the stream reader, on a read error, fails every pending call (a range over the whole router map sending a stream-down error of code Unavailable to every entry, unfiltered) before it loops or returns. E5: WrapMessage stores the handler's status (FromError, or Unknown with the error text) on every path and the reader rebuilds the error from that status and delivers it with the message. E6: every delivery of a response that can carry an error deletes the router in the same critical section, streaming or not, so one node contributes at most one error per call. E7: the stream is marked broken only while it is current (C09-W8 re-run). E8 (known finding): the sequential blocking hand-off waits for a down node's connection attempts.",
 			NotDecided:  "That the error produced by a failed *write* is of 'unavailable type': sender forwards whatever SendMsg returned (a run-time value classification); success 'whenever the remaining replies satisfy the quorum function' is C01-R1 + C02-T1; liveness.",
 			Trusted:     append([]string{"grpc status.FromError/FromProto/Err round-trip a status", "a cancelled stream context makes RecvMsg return an error"}, commonTrust...),
 		},
